@@ -40,6 +40,27 @@ def on_path(events, ev, kinds=None):
     return out
 
 
+def on_path_h(events, ev, kinds=None):
+    """Like on_path, but an exception-handler path also sees the events of the try body it handles
+    (the body ran, possibly partly, before the handler)."""
+    def norm(entry):
+        node, pol, cc = entry
+        if isinstance(pol, tuple) and pol and pol[0] == "handler":
+            return (id(node), True)
+        return (id(node), pol)
+    tgt = [norm(x) for x in ev.path]
+    out = []
+    for x in events:
+        if x is ev:
+            break
+        if kinds and x.kind not in kinds:
+            continue
+        px = [norm(y) for y in x.path]
+        if len(px) <= len(tgt) and tgt[:len(px)] == px:
+            out.append(x)
+    return out
+
+
 def group_by_node(events):
     groups = {}
     order = []
